@@ -3,16 +3,56 @@
 OPLEVEL = ('Sequential contracts + invariants: every whole-operation interleaving is covered, statement-level races '
            'inside lock-free operations are not (DESIGN.md section 7). ')
 
+TECH = 'contract-based deductive verification: real source (ast) -> VCs by pyvc, discharged by z3/cvc5; native replay of counterexamples'
+CORE_NOTE = ('Trusted: pyvc encoder, z3/cvc5, the abstract handler contract as the definition of a well-formed chart, '
+             'induction over depth for the tree lemmas (each lemma a discharged obligation), list/Event contracts.')
+Q_NOTE = ('Trusted: pyvc encoder, z3/cvc5, assumed collections.deque / queue.Queue contracts; handlers\' own queue calls '
+          'are separate operations of the history.')
+
 CLAIMED = {
-    'C15': {
-        'category': 'proof',
-        'text': 'defer/recall and every other queue operation of the real source are verified against deque-level '
-                'contracts for all queue contents, flag combinations and both hosts (queued chart, active object); '
-                'unbounded in queue length.',
-        'note': 'Trusted: pyvc encoder, z3/cvc5, assumed collections.deque contract, LockingDeque contract (proved '
-                'in C16), handlers\' own queue calls are separate operations.',
-        'technique': 'contract-based deductive verification: ast->VC, z3',
-    },
+    'C01': {'text': 'dispatch and trans_ are verified, for every finite tree, current state, source, target and chain of '
+                    'initial transitions (uninterpreted parent/depth/anc, 10 loop invariants with variants), against the '
+                    'UML monitor and a least-common-ancestor postcondition taken from the property text; unbounded.',
+            'note': CORE_NOTE, 'technique': TECH},
+    'C02': {'text': 'the offer protocol (current state first, each enclosing state in turn, one EMPTY_SIGNAL after a '
+                    'declined offer, nothing after an answer) and "no action, same state" for handled/ignored events are '
+                    'postconditions of dispatch for every tree and every reaction of every state on the active path.',
+            'note': CORE_NOTE, 'technique': TECH},
+    'C03': {'text': 'start_at/init verified for every tree, start state and chain of initial transitions against the UML '
+                    'monitor (each level entered exactly once, outside-in, nothing exited); three loop invariants, variants.',
+            'note': CORE_NOTE, 'technique': TECH},
+    'C06': {'text': 'subscribe, publish, one iteration of each delivery thread, start and clear are verified against an '
+                    'abstract registry view (identity-based, no duplicates) for all registry contents including distinct '
+                    'queues with equal contents.',
+            'note': OPLEVEL + 'Trusted: PriorityQueue/list/dict contracts, id() injective.', 'technique': TECH},
+    'C08': {'text': 'FabricEvent.__init__/__lt__ are verified to order any two publications lexicographically by '
+                    '(priority, publication order); with the honest heap contract of PriorityQueue.get that gives delivery '
+                    'in that order however many events wait.',
+            'note': OPLEVEL + 'Trusted: PriorityQueue.get returns some __lt__-minimal element; itertools.count increases.',
+            'technique': TECH},
+    'C09': {'text': 'one iteration of thread_runner_lifo/fifo verified: lifo deliveries must be appendleft, fifo append. '
+                    'The lifo obligation fails on the current tree (known finding D8: q.append; repair collides with the '
+                    'pinned test test_subscribe_lilo).',
+            'note': 'Trusted: PriorityQueue/list/dict contracts.', 'technique': TECH},
+    'C13': {'text': 'Inv_fab (ghost count of live delivery threads per kind equals "handle is a live thread"; live threads '
+                    'are bound to the fabric\'s current queue and registry) is preserved by start/stop/clear for every '
+                    'combination of missing, dead and live handles; is_alive verified against it.',
+            'note': OPLEVEL + 'Trusted: Thread/Event contracts, join returns once the target loop exits (loop exit proved), '
+                    'fair scheduling.', 'technique': TECH},
+    'C14': {'text': 'post_fifo, post_lifo, next_rtc, complete_circuit with all decorators inlined refine the operations of a '
+                    'double-ended queue for every queue content, flag combination and both hosts.',
+            'note': Q_NOTE, 'technique': TECH},
+    'C15': {'text': 'defer/recall and every other queue operation of the real source are verified against deque-level '
+                    'contracts for all queue contents, flag combinations and both hosts; unbounded in queue length.',
+            'note': Q_NOTE, 'technique': TECH},
+    'C16': {'text': 'representation invariant of LockingDeque and the property\'s sentences as postconditions of '
+                    'append/appendleft/pop/popleft/clear/len/qsize for all contents and token counts; every Queue.put site '
+                    'carries a never-blocks obligation; repair loops have variants.',
+            'note': Q_NOTE + ' Operations are taken as atomic (statement-level races with the consumer out of reach).',
+            'technique': TECH},
+    'C22': {'text': 'is_in/child_state verified for every tree, current state and argument: the answer equals the spec '
+                    'function encloses(X, current); only temp.fun is written and restored; no monitor step, no offer.',
+            'note': CORE_NOTE, 'technique': TECH},
 }
 
 NOT_APPLICABLE = {
